@@ -1,8 +1,12 @@
 #!/bin/sh
-# run every registered check of one tier and summarise (exit status, wall time, last line)
+# run every registered check of one tier (or the given ones) and summarise (exit status,
+# wall time, last line):  tools_runall.sh <tier> [C01 C02 ...]
 tier=${1:-quick}
 cd "$(dirname "$0")"
-for id in $(/venv/bin/python -c "import json; print(' '.join(c['property_id'] for c in json.load(open('MANIFEST.json'))['checks']))"); do
+shift
+ids="$*"
+[ -n "$ids" ] || ids=$(/venv/bin/python -c "import json; print(' '.join(c['property_id'] for c in json.load(open('MANIFEST.json'))['checks']))")
+for id in $ids; do
   start=$(date +%s)
   out=$(./check $id --tier $tier 2>&1); code=$?
   end=$(date +%s)
